@@ -44,6 +44,8 @@ def check(repo, col, tier):
     _pairing(repo, col)
     from . import c06
     c06.checkpoint_padding(repo, col, "R-C08-time")
+    from . import c11
+    c11.keyclass_on_base(repo, col, "R-C08-keyclass")
 
 
 def _named_dict(node: ast.AST):
